@@ -86,7 +86,8 @@ fn rv(o: &mut Rep, seed: u64) {
     }
 }
 fn so2(o: &mut Rep, seed: u64) {
-    for b in [None, Some((-1.0, 2.0)), Some((3.0, PI))] {
+    // (the last three: requested bounds that reach beyond [-PI, PI]; the space stores -- and samples -- the clamped interval)
+    for b in [None, Some((-1.0, 2.0)), Some((3.0, PI)), Some((-1.0, 4.0)), Some((-5.0, 0.5)), Some((0.0, 2.0 * PI))] {
         let sp = SO2StateSpace::new(b).unwrap();
         let (lo, hi) = sp.bounds;
         let mut rng = StdRng::seed_from_u64(seed);
@@ -166,6 +167,12 @@ fn compound(o: &mut Rep, seed: u64) {
     let (x, y, t): (Vec<f64>, Vec<f64>, Vec<f64>) = (ss.iter().map(|s| s.get_x()).collect(), ss.iter().map(|s| s.get_y()).collect(), ss.iter().map(|s| s.get_yaw()).collect());
     check_ks(o, seed, "SE2 x", x.clone(), &unif(0.0, 1.0)); check_ks(o, seed, "SE2 y", y.clone(), &unif(-3.0, 3.0)); check_ks(o, seed, "SE2 yaw", t.clone(), &unif(-1.0, 2.0));
     check_corr(o, seed, "SE2 x and yaw", &x, &t); check_corr(o, seed, "SE2 x and y", &x, &y);
+    {   // SE(2) with yaw bounds reaching beyond [-PI, PI]: the yaw is uniform on the interval the space stores
+        let se2 = SE2StateSpace::new(1.0, Some(vec![(0.0, 1.0), (-3.0, 3.0), (0.0, 2.0 * PI)])).unwrap();
+        let mut rng = StdRng::seed_from_u64(seed);
+        let t: Vec<f64> = (0..N).map(|_| se2.sample_uniform(&mut rng).unwrap().get_yaw()).collect();
+        check_ks(o, seed, "SE2 yaw, requested (0, 2 PI)", t, &unif(0.0, PI));
+    }
     let se3 = SE3StateSpace::new(1.0, Some(vec![(0.0, 1.0), (-3.0, 3.0), (5.0, 6.0)])).unwrap();
     let mut rng = StdRng::seed_from_u64(seed);
     let ss: Vec<_> = (0..N).map(|_| se3.sample_uniform(&mut rng).unwrap()).collect();
